@@ -279,7 +279,12 @@ def udpUnrefreshable (o : UdpObs) (u : Nat) : String :=
               if wk.refreshes.any (fun r => decide (su.tRet + o.slack < r.2)) then "fails refresh-after-unbuildable-template"
               else if o.dgrams.any (fun d => decide (closedBy + o.grace < d.t)) then "fails datagram-after-close"
               else if o.sends.any (fun s => decide (s.tRet < openUntil) && !s.ok) then "fails send-failed-while-open"
-              else if o.sends.any (fun s => decide (closedBy ≤ s.tCall) && s.ok) then "fails send-succeeded-after-failed-refresh"
+              -- evidence, no clock involved: once a send has failed the process is closed - no later send may succeed
+              else if (o.sends.zipIdx.any fun x => !x.1.ok && decide (su.tRet ≤ x.1.tCall) &&
+                        o.sends.zipIdx.any fun y => decide (x.2 < y.2) && decide (x.1.tRet ≤ y.1.tCall) && y.1.ok)
+                then "fails send-succeeded-after-a-failed-send"
+              -- time bound (a tick may be late on a loaded machine: three more slacks; a session failing here is run again alone)
+              else if o.sends.any (fun s => decide (min (closedBy + 3 * o.slack) o.close.done ≤ s.tCall) && s.ok) then "fails send-succeeded-after-failed-refresh"
               else if o.sends.any (fun s => decide (closedBy ≤ s.tCall) && !s.ok && s.n != 0) then "fails failed-send-reports-bytes"
               else "holds"
 
